@@ -22,7 +22,7 @@ HOOKS = ['LogSolution', 'LogWork', 'LogSDCIterations', 'LogStepSize', 'LogGlobal
 def plan(tier):
     if tier == 'thorough':
         return {'n': 300000, 'chunk': 300, 'timeout': 300, 'selftest': 60, 'budget_s': 7200, 'minimize_s': 300}
-    return {'n': 5000, 'chunk': 100, 'timeout': 300, 'selftest': 12, 'budget_s': 900, 'minimize_s': 120}
+    return {'n': 3500, 'chunk': 70, 'timeout': 300, 'selftest': 12, 'budget_s': 900, 'minimize_s': 120}
 
 
 def generate(seed, tier, index):
